@@ -115,6 +115,14 @@ Theorem C12_scale_covariant : forall (k : R) (cell face : list RV3),
   /\ varea2 ROps (map (vscale ROps k) face) = vscale ROps (k * k)%R (varea2 ROps face).
 Proof. intros. split; [apply outward2_scale | apply varea2_scale]. Qed.
 
+(* translation invariance: under x |-> x + t neither the area vectors nor the
+   sign test change, so facets, signs and normals of a mesh far from the origin
+   are those of the mesh at the origin *)
+Theorem C12_translation_invariant : forall (t : RV3) (cell face : list RV3),
+  outward2 ROps (map (vadd ROps t) cell) (map (vadd ROps t) face) = outward2 ROps cell face
+  /\ varea2 ROps (map (vadd ROps t) face) = varea2 ROps face.
+Proof. intros. split; [apply outward2_translate | apply varea2_translate]. Qed.
+
 (* non-vacuity: two positive tetrahedra glued along a face, sparse unsorted ids *)
 Definition ex_mesh : mesh :=
   {| m_nodes := [40; 7; 19; 3; 88]%Z;
